@@ -41,6 +41,9 @@ structure St where
   xrRv : Nat          -- resourceVersion of the XR (bumped by spec/metadata writes that change it)
   refs : List Ref
   objs : List CObj
+  /-- API version the stored references carry (all references are rewritten together, with
+  the version the composition currently emits) -/
+  refsVer : String := "v1"
   /-- ghost: objects controlled by someone else, recorded when the history starts; no API
   call reads or writes this field (used to state "foreign objects are left exactly as they were") -/
   foreign0 : List CObj := []
@@ -59,8 +62,8 @@ inductive Req where
   | getObj (kind name : String)
   | gcUpdate (kind name : String)          -- Update stripping the composite labels
   | delete (kind name : String)
-  | patchRefs (refs : List Ref)            -- fn: server-side apply of spec.resourceRefs
-  | updateXR (rv : Nat) (refs : List Ref)  -- pt: Update(XR) carrying spec.resourceRefs
+  | patchRefs (ver : String) (refs : List Ref)   -- fn: server-side apply of spec.resourceRefs (all of API version `ver`)
+  | updateXR (rv : Nat) (ver : String) (refs : List Ref)  -- pt: Update(XR) carrying spec.resourceRefs
   | apply (kind name annot : String) (content : Nat)      -- fn: server-side apply of a composed resource
   | create (kind name annot : String) (content : Nat)     -- pt: Create
   | mergePatch (kind name annot : String) (content : Nat) -- pt: merge patch of an existing composed resource
@@ -80,6 +83,10 @@ inductive Resp where
   | err
   | conflict
   deriving Repr, Inhabited
+
+/-- the spec.content value the (simulated) API server rejects as invalid: stands for any
+admission / schema validation failure of a composed resource -/
+def invalidContent : Nat := 9
 
 def findObj (objs : List CObj) (kind name : String) : Option CObj :=
   objs.find? (fun o => o.kind = kind ∧ o.name = name)
@@ -109,22 +116,27 @@ def exec (s : St) : Req → St × Resp
       if o.fin then ({ s with objs := mapObj s.objs k n (fun o => { o with deleting := true }) }, .ok)
       else ({ s with objs := removeObj s.objs k n }, .ok)
     | none => (s, .notFound)
-  | .patchRefs refs => if refs = s.refs then (s, .ok) else ({ s with refs := refs, xrRv := s.xrRv + 1 }, .ok)
-  | .updateXR rv refs =>
+  | .patchRefs ver refs =>
+    if refs = s.refs ∧ (refs = [] ∨ ver = s.refsVer) then (s, .ok)
+    else ({ s with refs := refs, refsVer := ver, xrRv := s.xrRv + 1 }, .ok)
+  | .updateXR rv ver refs =>
     if rv ≠ s.xrRv then (s, .conflict)
-    else if refs = s.refs then (s, .okRv s.xrRv)
-    else ({ s with refs := refs, xrRv := s.xrRv + 1 }, .okRv (s.xrRv + 1))
+    else if refs = s.refs ∧ (refs = [] ∨ ver = s.refsVer) then (s, .okRv s.xrRv)
+    else ({ s with refs := refs, refsVer := ver, xrRv := s.xrRv + 1 }, .okRv (s.xrRv + 1))
   | .apply k n a c =>
+    if c = invalidContent then (s, .invalid) else
     match findObj s.objs k n with
     | some o =>
       if o.ctrl = .other then (s, .invalid)
       else ({ s with objs := mapObj s.objs k n (fun o => { o with annot := a, ctrl := .xr, content := c, ssa := true }) }, .ok)
     | none => ({ s with objs := s.objs ++ [⟨k, n, a, .xr, false, false, c, true⟩] }, .ok)
   | .create k n a c =>
+    if c = invalidContent then (s, .invalid) else
     match findObj s.objs k n with
     | some _ => (s, .exists_)
     | none => ({ s with objs := s.objs ++ [⟨k, n, a, .xr, false, false, c, false⟩] }, .ok)
   | .mergePatch k n a c =>
+    if c = invalidContent then (match findObj s.objs k n with | some _ => (s, .invalid) | none => (s, .notFound)) else
     match findObj s.objs k n with
     | some o =>
       if o.ctrl = .other then (s, .invalid)
@@ -257,6 +269,7 @@ def orderBy {α : Type} (key : α → String) (hint : List String) (xs : List α
 
 /-- the nondeterministic choices of one function-composer run -/
 structure Choices where
+  ver : String := "v1"                  -- API version the function emits its resources with
   fresh : List String                   -- names the generator will propose, in order
   gcOrder : List CObj → List CObj       -- Go's map order in the garbage-collection loop
   applyOrder : List Named → List Named  -- Go's map order in the apply loop
@@ -275,7 +288,7 @@ def composeFn (lrv : Nat) (refs : List Ref) (out : Obs → FnOut) (ch : Choices)
     renderFn lrv obs ds ch.fresh [] fun named =>
     let undesired := (obs.filter fun p => !(ds.any (·.rname = p.1))).map (·.2)
     gcFn lrv (ch.gcOrder undesired) <|
-    wcall lrv (.patchRefs (refsOf named)) fun _ =>
+    wcall lrv (.patchRefs ch.ver (refsOf named)) fun _ =>
     applyFn lrv (ch.applyOrder named) true fun synced =>
     -- before this call the local XR is replaced by the function's desired XR (FromStruct),
     -- which carries no resourceVersion: a failure here leads to an unconditional status update
@@ -350,6 +363,7 @@ def applyPT (lrv : Nat) : List Rendered → Bool → (Bool → P) → P
     .call (.getObj r.d.kind r.name) fun
       | .notFound => wcall lrv (.create r.d.kind r.name r.d.rname r.d.content) fun
         | .exists_ => onError lrv
+        | .invalid => applyPT lrv rs false k     -- rejected by the API server: reported unsynced, the others still applied
         | _ => applyPT lrv rs synced k
       | .found o =>
         if o.ctrl = .other then onError lrv   -- MustBeControllableBy
@@ -360,10 +374,10 @@ def applyPT (lrv : Nat) : List Rendered → Bool → (Bool → P) → P
       | _ => onError lrv
 
 /-- PTComposer.Compose followed by the tail of Reconcile -/
-def composePT (lrv : Nat) (refs : List Ref) (tmpl : List Desired) (fresh : List String) : P :=
+def composePT (lrv : Nat) (refs : List Ref) (tmpl : List Desired) (fresh : List String) (ver : String := "v1") : P :=
   associatePT lrv tmpl refs [] fun a =>
   renderPT lrv a tmpl fresh [] fun rs =>
-  wcall lrv (.updateXR lrv (rs.map rkey)) fun rsp =>
+  wcall lrv (.updateXR lrv ver (rs.map rkey)) fun rsp =>
   let lrv' := match rsp with | .okRv rv => rv | _ => lrv
   applyPT lrv' rs true fun synced =>
   .call .getXR fun
@@ -372,7 +386,7 @@ def composePT (lrv : Nat) (refs : List Ref) (tmpl : List Desired) (fresh : List 
 
 inductive Mode where
   | fn (out : Obs → FnOut) (ch : Choices)
-  | pt (tmpl : List Desired) (fresh : List String)
+  | pt (tmpl : List Desired) (fresh : List String) (ver : String := "v1")
 
 /-- Reconciler.Reconcile for a live, unpaused XR -/
 def reconcile (m : Mode) : P :=
@@ -380,7 +394,7 @@ def reconcile (m : Mode) : P :=
     | .xr fin rv refs =>
       let body (lrv : Nat) : P := match m with
         | .fn out ch => composeFn lrv refs out ch
-        | .pt tmpl fresh => composePT lrv refs tmpl fresh
+        | .pt tmpl fresh ver => composePT lrv refs tmpl fresh ver
       if fin then body rv
       else .call (.addFinalizer rv) fun
         | .okRv rv' => body rv'
